@@ -84,9 +84,25 @@ def real_srecline(line):
         return {"exn": exn_name(e), "site": raising_site(e)}
 
 
+class _NoMap(object):
+    """stand-in for MemoryMap while HEX.decode runs: decode() only needs write(); the real map's
+    zone dump materialises every gap between record addresses (gigabytes for a linear base record)."""
+    def __init__(self):
+        self._zones = {}
+
+    def write(self, k, v):
+        pass
+
+
 def hexfile_dump(h):
-    # the (address, data) list HEX.decode builds
-    h.decode()
+    # the (address, data) list HEX.decode builds (its own address composition, unchanged)
+    import amoco.system.structs.HEX as HM
+    keep = HM.MemoryMap
+    HM.MemoryMap = _NoMap
+    try:
+        h.decode()
+    finally:
+        HM.MemoryMap = keep
     lines = getattr(h, "_HEX__lines")
     ent = h._entrypoint
     return {"lines": [hexline_dump(l) for l in h.L],
@@ -263,3 +279,62 @@ def real_read_program(data, timeout=10.0):
         r = {"exn": exn_name(e), "site": raising_site(e)}
     r["t"] = time.time() - t0
     return r
+
+
+# ---------------------------------------------------------------------------------------
+# PE / Mach-O (header level)
+# ---------------------------------------------------------------------------------------
+
+def plain(s, names):
+    d = {}
+    for n in names:
+        v = getattr(s, n)
+        if isinstance(v, bytes):
+            v = v.hex()
+        d[n] = v
+    return d
+
+
+def real_pe(data, timeout=20.0):
+    from amoco.system import pe as PE
+    try:
+        p = with_timeout(timeout, PE.PE, DataIO(data))
+    except Timeout:
+        return {"init": "timeout"}
+    except Exception as e:
+        return {"init": exn_name(e), "site": raising_site(e)}
+    nt = {f.name: getattr(p.NT, f.name) for f in p.NT.fields}
+    opt = {f.name: getattr(p.Opt, f.name) for f in p.Opt.fields}
+    names = ("ExportTable", "ImportTable", "ResourceTable", "ExceptionTable", "CertificateTable", "BaseRelocationTable", "Debug",
+             "Architecture", "GlobalPtr", "TLSTable", "LoadConfigTable", "BoundImport", "IAT", "DelayImportDescriptor",
+             "CLRRuntimeHeader", "Reserved")
+    dirs = [[p.Opt.DataDirectories[n].RVA, p.Opt.DataDirectories[n].Size] for n in names if n in p.Opt.DataDirectories]
+    secs = []
+    for s in p.sections:
+        d = {f.name: getattr(s, f.name) for f in s.fields}
+        d["Name"] = bytes(d["Name"]).hex()
+        secs.append(d)
+    return {"init": "ok", "e_lfanew": p.DOS.e_lfanew, "NT": nt, "Opt": opt, "dirs": dirs, "sections": secs,
+            "entry": p.entrypoints[0]}
+
+
+def real_macho(data, timeout=20.0):
+    from amoco.system import macho as M
+    try:
+        p = with_timeout(timeout, M.MachO, DataIO(data))
+    except Timeout:
+        return {"init": "timeout"}
+    except Exception as e:
+        return {"init": exn_name(e), "site": raising_site(e)}
+    hdr = {f.name: getattr(p.header, f.name) for f in p.header.fields}
+    cmds = []
+    for c in p.cmds:
+        d = {"cmd": c.cmd, "cmdsize": c.cmdsize}
+        if c.cmd in (0x1, 0x19):
+            for n in ("segname", "vmaddr", "vmsize", "fileoffset", "filesize", "maxprot", "initprot", "nsects", "flags"):
+                v = getattr(c, n)
+                d[n] = bytes(v).hex() if isinstance(v, bytes) else v
+            d["sections"] = [{"sectname": bytes(s.sectname).hex(), "segname": bytes(s.segname).hex(), "addr": s.addr,
+                              "size_": s.size_, "offset": s.offset, "align": s.align} for s in c.sections]
+        cmds.append(d)
+    return {"init": "ok", "header": hdr, "cmds": cmds}
